@@ -713,6 +713,14 @@ def check_static_structs(prop, tier, seed):
                        "S": {"structs": [{"name": "D", "members": [{"name": nm_, "ty": [{"k": "scalar", "s": "f32"}, {"k": "vec", "n": 2, "s": "f32"}, {"k": "scalar", "s": "u32"}, {"k": "vec", "n": 4, "s": "f32"}][j]} for j, nm_ in enumerate(names)]}],
                              "globals": [{"name": "d", "space": "storage_r", "group": "0", "binding": "0", "ty": {"k": "struct", "name": "D"}}], "consts": [], "overrides": [], "functions": [],
                              "entries": [{"name": "main", "stage": "compute", "params": [], "body": [{"k": "access", "g": "d", "how": "addr"}], "wg": ["1"]}]}})
+    # 64-bit integer members (SHADER_INT64): the generator at hand refuses them with a panic, which is outside these properties; a generator
+    # that accepts them owes the same element types as for every other scalar
+    for i, sc_ in enumerate(("i64", "u64")):
+        mem = [{"name": "s", "ty": {"k": "scalar", "s": sc_}}] + [{"name": "v%d" % n_, "ty": {"k": "vec", "n": n_, "s": sc_}} for n_ in (2, 3, 4)] + [{"name": "a", "ty": {"k": "array", "n": 3, "e": {"k": "vec", "n": 3, "s": sc_}}}]
+        for j, mv in enumerate(("rust", "glam", "nalgebra")):
+            rcases.append({"id": "int64-%s-%s" % (sc_, mv), "family": "struct-64-bit-integers", "opts": F.opts(mv=mv, enc=(j == 1), bmh=(j == 0)),
+                           "S": {"structs": [{"name": "Wide", "members": mem}], "globals": [{"name": "wide", "space": "storage_r", "group": "0", "binding": "0", "ty": {"k": "struct", "name": "Wide"}}],
+                                 "consts": [], "overrides": [], "functions": [], "entries": [{"name": "main", "stage": "compute", "params": [], "body": [{"k": "access", "g": "wide", "how": "addr"}], "wg": ["1"]}]}})
     drive_and_judge(rep, prop, rcases, "roles", keep)
     # every struct role of MC_Structs (reachable from a variable AND entry parameter / result, builtin members before located ones, ...)
     rs = structs_mc(rep, quick, early=EARLY, check_work=False)
@@ -807,10 +815,12 @@ def check_C01(tier, seed):
     # derive combination: attributes meant for host-shareable structs must not leak onto structs that do not get the derive
     V3 = {"k": "vec", "n": 3, "s": "f32"}
     for i, o_ in enumerate([F.opts(enc=True, mv="glam"), F.opts(enc=True, mv="glam", bmv=True), F.opts(enc=True, serde=True), F.opts(bmh=True, bmv=True), F.opts(enc=True, bmh=True, mv="glam")]):
-        S = {"structs": [{"name": "VIn", "members": [{"name": "position", "ty": V3, "io": {"k": "loc", "n": 0}, "size": 16}, {"name": "uv", "ty": {"k": "vec", "n": 2, "s": "f32"}, "io": {"k": "loc", "n": 1}},
-                                                      {"name": "tint", "ty": F.VEC4, "io": {"k": "loc", "n": 2}, "align": 16}]},
-                         {"name": "FIn", "members": [{"name": "pos", "ty": F.VEC4, "io": {"k": "builtin", "b": "position"}}, {"name": "w", "ty": {"k": "scalar", "s": "f32"}, "io": {"k": "loc", "n": 0}, "size": 8},
-                                                      {"name": "c", "ty": F.VEC4, "io": {"k": "loc", "n": 1}}]},
+        F1 = {"k": "scalar", "s": "f32"}
+        S = {"structs": [{"name": "VIn", "members": [{"name": "position", "ty": V3, "io": {"k": "loc", "n": 0}, "size": 16}, {"name": "weight", "ty": F1, "io": {"k": "loc", "n": 3}},
+                                                      {"name": "uv", "ty": {"k": "vec", "n": 2, "s": "f32"}, "io": {"k": "loc", "n": 1}, "size": 24}, {"name": "layer", "ty": F1, "io": {"k": "loc", "n": 4}},
+                                                      {"name": "bias", "ty": F1, "io": {"k": "loc", "n": 5}, "align": 16}, {"name": "tint", "ty": F.VEC4, "io": {"k": "loc", "n": 2}, "align": 16}]},
+                         {"name": "FIn", "members": [{"name": "pos", "ty": F.VEC4, "io": {"k": "builtin", "b": "position"}}, {"name": "w", "ty": F1, "io": {"k": "loc", "n": 0}, "size": 8},
+                                                      {"name": "k", "ty": F1, "io": {"k": "loc", "n": 2}}, {"name": "c", "ty": F.VEC4, "io": {"k": "loc", "n": 1}}]},
                          {"name": "Cam", "members": [{"name": "m", "ty": F.VEC4}, {"name": "k", "ty": {"k": "scalar", "s": "f32"}, "size": 16}]}],
              "globals": [{"name": "cam", "space": "uniform", "group": "0", "binding": "0", "ty": {"k": "struct", "name": "Cam"}}], "consts": [], "overrides": [], "functions": [],
              "entries": [{"name": "vs_main", "stage": "vertex", "params": [{"k": "struct", "name": "v", "ty": "VIn"}], "result": {"k": "builtin", "b": "position"}, "body": [{"k": "access", "g": "cam", "how": "load"}], "wg": []},
